@@ -991,6 +991,16 @@ impl Model {
                 }
             }
         }
+        // the same for remove_child: a merged text node one of whose pieces has left the receiver is not a child
+        if let Op::RemoveChild { recv, old, .. } = &step.op {
+            if let (Some(MSlot::Run(r)), Some(rm), false) = (self.slot(*old), self.node_slot(*recv), self.stale(*recv)) {
+                if self.stale(*old) && !r.is_empty() && r.iter().any(|p| self.nodes[*p].parent != Some(rm)) {
+                    let mut p = Plan::fail(vec![ErrClass::NotFound, ErrClass::Hierarchy, ErrClass::WrongDoc, ErrClass::NotSupported]);
+                    p.illegal = true;
+                    return p;
+                }
+            }
+        }
         if Model::step_slots(step).iter().any(|s| self.stale(*s)) {
             return Plan::skip();
         }
